@@ -153,6 +153,16 @@ def check_v2_v3_pool(ctx, model, crate, rule, fns=("swap", "provide_liquidity"))
             nxt = [nb for nb, nt in v.calls_to(r"as std::iter::Iterator>::next$") if any(hb in v.reach_strict(nb) for hb in helpers)]
             ok = bool(edges) and bool(nxt) and all(any(must_pass_through(v, nb, [tb]) for nb in nxt) for tb in targets) and not any(
                 hb in v.reach_strict(tb) for hb in helpers for tb in targets)
+        if not ok and targets:
+            # `assets.iter().try_for_each(|a| a.assert_sent_native_token_balance(&info))?`: the adapter visits every asset and its
+            # error is propagated before any balance is read
+            from ..guards import result_edges
+            from .common import scope_calls
+            inner = [(sv, ch) for sv, ch, hb, ht in scope_calls(model, p, r"asset::Asset::assert_sent_native_token_balance$") if ch]
+            for oke, ab, at_, erre in result_edges(v, re.compile(r"Iterator>::try_for_each$")):
+                closes = {o.a for o in v.origins_of_operand(at_["args"][1], at=v.at_term(ab)) if o.kind == "closure"}
+                if any(sv.path in closes for sv, ch in inner) and all(v.edge_dominated(tb, oke) for tb in targets):
+                    ok = True
         ctx.ob(rule, "%s|funds-validated-before-pricing" % p, ok, "pool balances are read only after assert_sent_native_token_balance succeeded: %s" % ok, v.where())
         for b, t in v.calls_to(r"asset::Asset::assert_sent_native_token_balance$"):
             a1 = arg_origins(v, b, t, 1)
